@@ -216,6 +216,42 @@ def subtractFields (rec : Table → Nat → Nat → TRes) (never : Nat) (name : 
         | none => none
         | some (T3, out) => some (T3, r2.2 :: out)
 
+def isCycleTy : Ty → Bool
+  | .cycle _ => true
+  | _ => false
+
+/-- `contains_cycle(a) || contains_cycle(b)` (short-circuit, fresh `seen` each). -/
+def cyclicPair (vr : Variant) (T : Table) (a b : Nat) : Option Bool :=
+  match containsCycle vr T a with
+  | none => none
+  | some ca => if ca then some true else containsCycle vr T b
+
+/-- the `is_compatible` / `types_overlap` shortcuts of `subtract_one` (skipped for cyclic types):
+`some (some out)` = decided, `some none` = go on structurally, `none` = out of fuel. -/
+def diffShortcut (rf : Nat) (T : Table) (cyclic : Bool) (a b : Nat) : Option (Option (List Nat)) :=
+  if cyclic then some none
+  else
+    match isCompatible T rf a b with
+    | none => none
+    | some true => some (some [])
+    | some false =>
+      match typesOverlap T rf a b with
+      | none => none
+      | some false => some (some [a])
+      | some true => some none
+
+/-- the tuple arm of `subtract_one` (after `never` has been registered):
+`[A] ∖ [b]` = union over i of `[A₀, …, Aᵢ∖bᵢ, …, Aₙ]`. -/
+def diffTuple (vr : Variant) (rec : Table → Nat → Nat → TRes) (T : Table) (never a id1 id2 : Nat) :
+    LRes :=
+  match T.tuples[id1]?, T.tuples[id2]? with
+  | some i1, some i2 =>
+    if i1.name ≠ i2.name ∨ i1.fields.length ≠ i2.fields.length then some (T, [a])
+    -- tuples whose field labels differ share no value: nothing to subtract (fix e0ad7de)
+    else if !vr.narrowIgnoresLabels && labelsDiffer i1.fields i2.fields then some (T, [a])
+    else subtractFields rec never i1.name i1.fields T 0 (i1.fields.zip i2.fields)
+  | _, _ => some (T, [a])
+
 /-- `subtract_one(a, b, program)` with `compute_complement` abstracted as `rec`. -/
 def subtractOne (vr : Variant) (rf : Nat) (rec : Table → Nat → Nat → TRes) (T : Table) (a b : Nat) :
     LRes :=
@@ -223,45 +259,19 @@ def subtractOne (vr : Variant) (rf : Nat) (rec : Table → Nat → Nat → TRes)
   else
     match T.types[a]?, T.types[b]? with
     | some ta, some tb =>
-      let isCycle : Ty → Bool := fun t => match t with | .cycle _ => true | _ => false
-      if isCycle ta || isCycle tb then some (T, [a])
+      if isCycleTy ta || isCycleTy tb then some (T, [a])
       else
-        match containsCycle vr T a with
+        match cyclicPair vr T a b with
         | none => none
-        | some ca =>
-          -- `contains_cycle(a) || contains_cycle(b)` (short-circuit)
-          match (if ca then some true else containsCycle vr T b) with
+        | some cyclic =>
+          match diffShortcut rf T cyclic a b with
           | none => none
-          | some cyclic =>
-            let shortcut : Option (Option (List Nat)) :=
-              if cyclic then some none
-              else
-                match isCompatible T rf a b with
-                | none => none
-                | some true => some (some [])
-                | some false =>
-                  match typesOverlap T rf a b with
-                  | none => none
-                  | some false => some (some [a])
-                  | some true => some none
-            match shortcut with
-            | none => none
-            | some (some out) => some (T, out)
-            | some none =>
-              let Tn := T.never
-              let T := Tn.1
-              let never := Tn.2
-              match ta, tb with
-              | .tuple id1, .tuple id2 =>
-                match T.tuples[id1]?, T.tuples[id2]? with
-                | some i1, some i2 =>
-                  if i1.name ≠ i2.name ∨ i1.fields.length ≠ i2.fields.length then some (T, [a])
-                  -- tuples whose field labels differ share no value: nothing to subtract
-                  -- (fix e0ad7de)
-                  else if !vr.narrowIgnoresLabels && labelsDiffer i1.fields i2.fields then some (T, [a])
-                  else subtractFields rec never i1.name i1.fields T 0 (i1.fields.zip i2.fields)
-                | _, _ => some (T, [a])
-              | _, _ => some (T, [a])
+          | some (some out) => some (T, out)
+          | some none =>
+            -- `let never = program.never();` happens before the structural match
+            match ta, tb with
+            | .tuple id1, .tuple id2 => diffTuple vr rec T.never.1 T.never.2 a id1 id2
+            | _, _ => some (T.never.1, [a])
     | _, _ => some (T, [a])
 
 /-- `for piece in pieces { next.extend(subtract_one(piece, nv, program)) }`. -/
